@@ -42,7 +42,7 @@ func c15Call(name, key string) *callRole {
 // left empty disappears, an iterator yields one child per element of its range, in order, with the iteration
 // variable bound, an error in any processed role fails the load, and the resulting tree is the same for every
 // setting of the three concurrency switches and every interleaving.
-//verif:entry HarnessLoadStructure unwind=48 preempt=0 reach=loaded,failed stub=github.com/AliceO2Group/Control/common/utils.TimeTrack
+//verif:entry HarnessLoadStructure unwind=48 conform=12 preempt=0 reach=loaded,failed stub=github.com/AliceO2Group/Control/common/utils.TimeTrack
 //verif:thorough HarnessLoadStructure preempt=1 paths=1500000
 func HarnessLoadStructure() {
 	keys := []string{"root", "a", "b", "b1", "b2", "c"}
@@ -176,7 +176,7 @@ func c15Subst(f template.Fields, confSvc template.ConfigurationService, parentPa
 // An iterator nested in an iterated role, its range depending on the outer iteration variable (begin/end form):
 // outer element o in 1..N yields a group g<o> holding the calls w<o>-1 .. w<o>-<o>; every generated role has both
 // iteration variables bound to its own values; the same tree for every setting of the concurrency switches.
-//verif:entry HarnessNestedIterator unwind=64 preempt=0 reach=loaded stub=github.com/AliceO2Group/Control/common/utils.TimeTrack,github.com/jinzhu/copier.Copy
+//verif:entry HarnessNestedIterator unwind=64 conform=12 preempt=0 reach=loaded stub=github.com/AliceO2Group/Control/common/utils.TimeTrack,github.com/jinzhu/copier.Copy
 //verif:thorough HarnessNestedIterator preempt=1
 func HarnessNestedIterator() {
 	template.VerifHook_Fields_Execute = c15Subst
